@@ -159,9 +159,13 @@ class Sched:
         last = None
         while not all(self.done):
             runnable = [i for i in range(self.n) if not self.done[i]]
-            choice = self.schedule[k] if k < len(self.schedule) else 0
+            if k < len(self.schedule):
+                pick = runnable[self.schedule[k] % len(runnable)]
+            else:
+                # past the end of the schedule the threads alternate at every yield point
+                later = [i for i in runnable if last is not None and i > last]
+                pick = later[0] if later else runnable[0]
             k += 1
-            pick = runnable[choice % len(runnable)]
             if last is not None and pick != last and len(runnable) == self.n:
                 self.switches_while_all_running += 1
             last = pick
@@ -327,7 +331,7 @@ def schedule_case(draw):
 
 
 def prop_exhaustive(sh, case):
-    """All schedules of length L for fixed pairs of queries (the rest of the run follows thread order)."""
+    """All schedules of length L for fixed pairs of queries (afterwards the threads alternate at every yield point)."""
     fails = []
     pairs = [((0, 0), 'separate'), ((0, 0), 'shared'), ((2, 1), 'separate-ledgers'), ((12, 13), 'shared'), ((16, 17), 'shared'),
              ((8, 9), 'shared'), ((3, 6), 'separate'), ((21, 21), 'shared'), ((22, 22), 'shared'), ((4, 4), 'shared'), ((23, 24), 'separate'),
